@@ -275,8 +275,41 @@ def run_shard(d):
                         continue  # -m filters pairs/reads differently once empty reads are missing: compared for option set 0 only
                     if q != a:
                         V.append(("fasta-vs-fastq", "FASTA input gives other names/sequences than FASTQ input", dict(option_set=OPTSETS[oi], layout=layout)))
+    if d["idx"] and d["idx"][0] == 1:
+        do_info_fasta_vs_fastq(wd, res)
     clih.rmtree(wd)
     return res
+
+
+def do_info_fasta_vs_fastq(wd, res):
+    """The info file is an output, too: its name, coordinate and sequence columns must not depend on whether the input had qualities."""
+    V = res["viol"]
+    r1, _ = reads()
+    r1 = [x for x in r1 if x[1]]
+    fq, fa = os.path.join(wd, "i.fq"), os.path.join(wd, "i.fa")
+    clih.write_text(fq, clih.fastq_text(r1))
+    clih.write_text(fa, clih.fasta_text([(n, s_, None) for n, s_, q in r1]))
+    for extra in ([], ["-u", "-4"], ["-u", "3"], ["-u", "2", "-u", "-3", "--times", "2", "-g", "gg=CATCATG"]):
+        rows = {}
+        for fmt, path in (("fastq", fq), ("fasta", fa)):
+            info = os.path.join(wd, f"info.{fmt}.tsv")
+            r = clih.run_cli(extra + ["-a", "ad=ACGTACGG", "--info-file", info, "-o", os.path.join(wd, "io." + ("fq" if fmt == "fastq" else "fa")), path])
+            res["evals"] += 1
+            res["nontrivial"] += 1
+            if r.exit != 0:
+                V.append(("info:failed", f"run failed: {r.exit} {r.exc} {r.errors()[:1]}", dict(options=extra, format=fmt)))
+                rows = None
+                break
+            with open(info) as fh:
+                rows[fmt] = [ln.rstrip("\n").split("\t") for ln in fh]
+        if not rows:
+            continue
+        a = [(x[:8] if len(x) > 4 else x[:3]) for x in rows["fastq"]]
+        b = [(x[:8] if len(x) > 4 else x[:3]) for x in rows["fasta"]]
+        if a != b:
+            k = next((i for i in range(min(len(a), len(b))) if a[i] != b[i]), min(len(a), len(b)))
+            V.append(("info:fasta-vs-fastq", "info file: name / coordinate / sequence columns differ between FASTA and FASTQ input of the same reads",
+                      dict(options=extra, fastq_row=a[k] if k < len(a) else None, fasta_row=b[k] if k < len(b) else None)))
 
 
 def do_two_outputs(wd, res):
